@@ -859,7 +859,8 @@ func checkC18(r *Run) {
 	// the temporal faults come in two flavours: neither type configured, or only the other one
 	kinds := []string{"time-without-time_type", "duration-without-duration_type", "map-with-int32-key",
 		"time-without-time_type/duration_type-set", "duration-without-duration_type/time_type-set",
-		"map-with-sfixed32-key", "map-with-fixed64-key", "map-with-bool-key"}
+		"map-with-sfixed32-key", "map-with-fixed64-key", "map-with-bool-key",
+		"repeated-time-without-time_type", "repeated-duration-without-duration_type", "map-of-time-without-time_type"}
 	var all, compiled []*pipeline.Case
 	type fcase struct {
 		base, faulted, repaired *pipeline.Case
@@ -948,6 +949,12 @@ func checkC18(r *Run) {
 						f = descgen.F(fname, descgen.TS())
 					case "duration-without-duration_type", "duration-without-duration_type/time_type-set":
 						f = descgen.F(fname, descgen.Dur())
+					case "repeated-time-without-time_type":
+						f = descgen.F(fname, descgen.TS(), descgen.Rep())
+					case "repeated-duration-without-duration_type":
+						f = descgen.F(fname, descgen.Dur(), descgen.Rep(), descgen.NonNull())
+					case "map-of-time-without-time_type":
+						f = descgen.F(fname, descgen.TS(), descgen.MapOf())
 					case "map-with-sfixed32-key":
 						f = descgen.F(fname, descgen.MapOf(), descgen.KeyT(ir.Sfixed32))
 					case "map-with-fixed64-key":
